@@ -31,3 +31,5 @@ import sys; sys.path.insert(0,'$ROOT')
 from pathlib import Path
 from translator import gen as T
 T.regenerate(Path('/repo'), Path('$ROOT/lean/NavisModel/Gen'))" >/dev/null 2>&1
+# the driver binary embeds generated facts: rebuild it from the restored Gen files
+(cd "$ROOT/lean" && lake build navisdrv >/dev/null 2>&1)
